@@ -160,7 +160,7 @@ def run(tier, seed):
         if sp_r.get(k, 0):
             c.drift.append({"stage": "random", k: sp_r[k]})
     if sp_r.get("inmem_prover_eq_real_prover", 0) == 0 or s0.get("honest_messages", 0) == 0:
-        raise vlib.ToolError("vacuity: no honest response of the real prover was cross-checked")
+        c.defer("vacuity: no honest response of the real prover was cross-checked")
 
     # ---- VAL -------------------------------------------------------------------------------------------------------
     total = 0
@@ -190,7 +190,7 @@ def run(tier, seed):
     # ---- vacuity on what was really reached ---------------------------------------------------------------------------
     def need(cond, what):
         if not cond:
-            raise vlib.ToolError("vacuity: " + what)
+            c.defer("vacuity: " + what)
     for sc, where in ((sc_c, "cases"), (sc_r, "random")):
         for fmt in ("legacy", "tx", "blk"):
             need(sc.get(f"honest:{fmt}:accepted", 0) > 0, f"no honest {fmt} response accepted ({where})")
